@@ -133,6 +133,11 @@ func (db *MultiBucketBackend) getBucketWithFilePrefixLocked(bucket string, prefi
 
 	response := gofakes3.NewObjectList()
 
+	if stat, err := db.bucketFs.Stat(filepath.FromSlash(bucketPath)); err == nil && !stat.IsDir() && prefixPath != "" {
+		// The directory part of the prefix names an object, not a directory:
+		return response, nil
+	}
+
 	dirEntries, err := afero.ReadDir(db.bucketFs, filepath.FromSlash(bucketPath))
 	if os.IsNotExist(err) {
 		if exists, _ := afero.DirExists(db.bucketFs, bucket); exists {
